@@ -1142,6 +1142,40 @@ func intrinsic(name string) externalFn {
 			w[ptrArg(args[0])] = true
 			return nil
 		}
+	case "svWatchDeep":
+		// watch every struct that the given struct points to (pointer fields and
+		// interface fields holding pointers): objects a Client keeps and shares
+		return func(fr *frame, args []value) value {
+			w, _ := ex.ghost["watch"].(map[*value]bool)
+			if w == nil {
+				w = map[*value]bool{}
+				ex.ghost["watch"] = w
+			}
+			var walk func(p *value, depth int)
+			walk = func(p *value, depth int) {
+				if p == nil || w[p] && depth > 0 {
+					return
+				}
+				st, ok := (*p).(structure)
+				if !ok {
+					return
+				}
+				w[p] = true
+				if depth >= 3 {
+					return
+				}
+				for _, f := range st {
+					if ie, ok := f.(iface); ok {
+						f = ie.v
+					}
+					if pv, ok := f.(*value); ok {
+						walk(pv, depth+1)
+					}
+				}
+			}
+			walk(ptrArg(args[0]), 0)
+			return nil
+		}
 	case "svLogStart":
 		return func(fr *frame, args []value) value { ex.ghost["logid"] = int(asInt64(args[0])); return nil }
 	case "svLogStop":
